@@ -506,12 +506,31 @@ impl SuffixArrayDictionary {
         use std::io::Write;
         
         let serialized = self.serialize()?;
-        let mut file = File::create(path)
-            .map_err(|e| ZiporaError::io_error(&format!("Failed to create dictionary file: {}", e)))?;
-        
-        file.write_all(&serialized)
-            .map_err(|e| ZiporaError::io_error(&format!("Failed to write dictionary file: {}", e)))?;
-        
+
+        // The format carries no checksum, so a partially written file could
+        // deserialize into a dictionary that was never saved.  Write a sibling
+        // temporary file, flush it, and rename it over the target: the target
+        // always holds either the previous dictionary or the complete new one.
+        let path = path.as_ref();
+        let mut tmp_name = path.as_os_str().to_os_string();
+        tmp_name.push(".tmp");
+        let tmp_path = std::path::PathBuf::from(tmp_name);
+
+        let write_tmp = || -> std::io::Result<()> {
+            let mut file = File::create(&tmp_path)?;
+            file.write_all(&serialized)?;
+            file.sync_all()?;
+            Ok(())
+        };
+        if let Err(e) = write_tmp() {
+            let _ = std::fs::remove_file(&tmp_path);
+            return Err(ZiporaError::io_error(&format!("Failed to write dictionary file: {}", e)));
+        }
+        std::fs::rename(&tmp_path, path).map_err(|e| {
+            let _ = std::fs::remove_file(&tmp_path);
+            ZiporaError::io_error(&format!("Failed to create dictionary file: {}", e))
+        })?;
+
         Ok(())
     }
 
